@@ -1,7 +1,8 @@
 (* Props/C06.v — property theorems for C06 (concurrent gets, puts and deletes are
    linearizable); each closed by `exact` of a lemma proved elsewhere, with Print
    Assumptions beneath. *)
-From KV Require Import Bytes Spec Engine EngineProofs Hist HistProofs EngineConc EngineConcProofs.
+From Coq Require Import Sorted.
+From KV Require Import Bytes Spec WalCodec Engine EngineProofs Hist HistProofs EngineConc EngineConcProofs.
 Open Scope N_scope.
 
 (* every interleaving of client sections and flusher steps leaves a linearizable history *)
@@ -16,41 +17,47 @@ Theorem C06_linearizable_reachable : forall s0 tr,
 Proof. exact EngineConcProofs.C06_linearizable_reachable. Qed.
 Print Assumptions C06_linearizable_reachable.
 
-(* a write that reports success took effect exactly once *)
-Theorem C06_ack_exactly_once : forall s h r obs s',
-  MInv s h -> section s r obs = (s', PAck) ->
-  exists q w, MInv s' (h ++ [(q, w)]) /\
-    match r with CPut k v => w = WPut k v | CDel k => w = WDel k | CGet _ => False end.
-Proof. exact EngineConcProofs.C06_ack_exactly_once. Qed.
-Print Assumptions C06_ack_exactly_once.
+(* a write that reports success took effect exactly once: the section is one run of
+   Engine.put / Engine.del ... *)
+Theorem C06_ack_is_one_write : forall s w obs s',
+  retry max_retries obs w s = (s', PAck) -> exists q, do_write s w = (s', WrOk q).
+Proof. exact EngineConcProofs.C06_ack_is_one_write. Qed.
+Print Assumptions C06_ack_is_one_write.
 
 Theorem C06_ack_put_visible : forall s h k v obs s' k',
-  MInv s h -> section s (CPut k v) obs = (s', PAck) ->
+  EInv s h -> section s (CPut k v) obs = (s', PAck) ->
   get s' k' = if beq k k' then Some v else get s k'.
 Proof. exact EngineConcProofs.C06_ack_put_visible. Qed.
 Print Assumptions C06_ack_put_visible.
 
-(* a write that reports an error took no effect: no read changes ... *)
-Theorem C06_error_invisible : forall s h r obs s',
-  MInv s h -> section s r obs = (s', PErr) -> MInv s' h /\ forall k, get s' k = get s k.
-Proof. exact EngineConcProofs.C06_error_invisible. Qed.
-Print Assumptions C06_error_invisible.
+(* ... and after any run the log holds exactly the writes of a linearization of the run's
+   history, once each, in its order, with strictly increasing sequence numbers *)
+Theorem C06_log_exactly_once : forall cf tr c,
+  crun (cinit (init cf)) tr = Some c ->
+  exists l h,
+    linearization _ spec_apply [] (history_of c) l /\
+    run_spec [] l = Some (map snd h) /\
+    concat (wal_files (eng c)) = wentries h /\ StronglySorted N.lt (map fst h).
+Proof. exact EngineConcProofs.C06_log_exactly_once. Qed.
+Print Assumptions C06_log_exactly_once.
 
-(* ... and nothing at all changes unless an attempt saw the log flip between its checks *)
-Theorem C06_error_no_effect_partial : forall s r obs s',
-  ~ In WFlip obs -> section s r obs = (s', PErr) -> s' = s.
-Proof. exact EngineConcProofs.C06_error_no_effect_partial. Qed.
-Print Assumptions C06_error_no_effect_partial.
+(* a write that reports an error took no effect: the state, log included, is unchanged *)
+Theorem C06_error_no_effect : forall s r obs s',
+  section s r obs = (s', PErr) -> s' = s.
+Proof. exact EngineConcProofs.C06_error_no_effect. Qed.
+Print Assumptions C06_error_no_effect.
 
-(* with such a flip the code leaves the record of the failed write in the log; it takes
-   effect at the next restart (the full statement C06_error_no_effect_statement is false of
-   the faithful model; replayed against the real code by corpus/C06/flip-*.case) *)
-Theorem C06_error_no_effect_refuted : exists s k v obs s',
-  section s (CPut k v) obs = (s', PErr) /\
-  concat (wal_files s) = [] /\ concat (wal_files s') = [WalCodec.mkW WalCodec.OpPut 1 k v] /\
-  get s k = None /\ get s' k = None /\ get (reopen s') k = Some v.
-Proof. exact EngineConcProofs.C06_error_no_effect_refuted. Qed.
-Print Assumptions C06_error_no_effect_refuted.
+(* the defect found in the code before 702abac (status re-read behind the buffered record):
+   in the model of that code an errored write is in the log and appears after a restart *)
+Theorem C06_error_no_effect_refuted_before_fix :
+  Before702abac.retry' max_retries Before702abac.obs (WPutReq Before702abac.k Before702abac.v)
+                       Before702abac.s0 = (Before702abac.s1, PErr) /\
+  concat (wal_files Before702abac.s0) = [] /\
+  concat (wal_files Before702abac.s1) = [mkW OpPut 1 Before702abac.k Before702abac.v] /\
+  get Before702abac.s0 Before702abac.k = None /\ get Before702abac.s1 Before702abac.k = None /\
+  get (reopen Before702abac.s1) Before702abac.k = Some Before702abac.v.
+Proof. exact Before702abac.error_no_effect_refuted. Qed.
+Print Assumptions C06_error_no_effect_refuted_before_fix.
 
 (* the checker that judges the recorded histories of the real engine is sound *)
 Theorem C06_lin_check_sound : forall fuel h, lin_check fuel h = true -> linearizable_per_key h.
